@@ -52,7 +52,7 @@ CHECKS = {
             "diff_ulp is compared with the integer lattice distance for every finite float16 and its k<=64 neighbours, for all ordered pairs of a 2048-value alphabet (symmetry, zero-iff-equal, additivity on monotone triples), under a flush-ordinal model, for complex pairs, and ulp() against its nextafter identities for every finite float16.",
             "Trusts numpy.nextafter and the sign-magnitude integer view. float32/64 on lattices.", "DESIGN.md §2 C14"),
     "C15": ("exploration", "exhaustive enumeration of all mpf values with <= 14-bit mantissas over the whole exponent range for float16 (ties, subnormal boundaries, overflow edge), tie lattices for float32/64, all float16 inputs through the backend x option grid",
-            "mpf2float is compared with an exact integer round-to-nearest-even wherever the statement promises a value; exact functions through vectorize_with_mpmath / numpy_with_mpmath on every float16 input for seven option sets must return the exact value, preserving subnormals unless flushing was requested.",
+            "mpf2float is compared with an exact integer round-to-nearest-even wherever the statement promises a value; exact functions through vectorize_with_mpmath / numpy_with_mpmath on every float16 input for seven option sets must return the exact value, preserving subnormals unless flushing was requested. Bounded histories on one backend instance: every sequence of argument float types (length <= 2 quick, <= 3 thorough) x four extra-precision option sets, each call judged exactly.",
             "Trusts Fractions and mpmath's make_mpf. Results in the subnormal range are judged only where the statement promises something; flush=True uses flush-to-zero semantics.", "DESIGN.md §2 C15"),
     "C16": (
         "exploration",
@@ -65,7 +65,7 @@ CHECKS = {
         "DESIGN.md §2 C16",
     ),
     "C17": ("exploration", "exhaustive enumeration of every in-domain float16, complete ULP neighbourhoods of k*ln2 / k*pi/2 and continued-fraction hard cases for float32/64, multiprecision reconstruction",
-            "Every finite float16 of the stated domains, and for float32/64 the binade lattice, the complete neighbourhoods of every k*ln2 and of k*pi/2 (k<256/1024) and the per-binade mantissas closest to multiples of pi/2 and ln2 are reduced by the real code (NumPy scalars; 0-d arrays = the type-generic path and the traced+emitted function are bit-compared with that route; dtype sequences on one shared NumpyContext are compared with fresh contexts); k, |r| and the reconstruction error are judged against ln2/pi carried as Fractions at >10x precision.",
+            "Every finite float16 of the stated domains, and for float32/64 the binade lattice, the complete neighbourhoods of every k*ln2 and of k*pi/2 (k<256/1024), the edges of the permitted remainder band ((k+0.4495) and (k+0.5505) times ln2 for every k, times pi/2 for k<256/1024) and the fractional lattice (k+j/16)*ln2 and the per-binade mantissas closest to multiples of pi/2 and ln2 are reduced by the real code (NumPy scalars; 0-d arrays = the type-generic path and the traced+emitted function are bit-compared with that route; dtype sequences on one shared NumpyContext are compared with fresh contexts); k, |r| and the reconstruction error are judged against ln2/pi carried as Fractions at >10x precision.",
             "Trusts mpmath's ln2 and pi and Fractions. float32/float64 off the constructed set are not covered.", "DESIGN.md §2 C17"),
     "C18": ("model_checking", "explicit-state BFS over create/enter/exit/raise histories on the real MXCSR register with an integer register + stack reference model, plus generated with/decorator programs",
             "Breadth-first search over histories (nesting depth <= 3, <= 2-3 context objects, <= 1 exception) from 9-18 initial register states and 12-45 argument combinations; contexts are created from two register objects; every transition replays the whole history on fresh fpu objects, reads the hardware register through the harness's own stmxcsr stub after every event and compares the control bits with the model; arithmetic probes confirm the body observes the mode; every failing history is replayed twice; complete nestings also run as generated source with real with-statements, try/except and the decorator form.",
